@@ -54,7 +54,7 @@ class AsyncIORuntime(SubscriptionRuntime):
         ):
 
             return self.loop.run_in_executor(
-                None, ft.partial(fn, *args, **kwargs)
+                None, _thread_call(ft.partial(fn, *args, **kwargs))
             )
 
         return fn(*args, **kwargs)
@@ -173,12 +173,25 @@ class AsyncIORuntime(SubscriptionRuntime):
 
             async def wrapped(*args, **kwargs):
                 return await self.loop.run_in_executor(
-                    None, ft.partial(func, *args, **kwargs)
+                    None, _thread_call(ft.partial(func, *args, **kwargs))
                 )
 
             return wrapped
 
         return func
+
+
+def _thread_call(call: Callable[[], T]) -> Callable[[], T]:
+    # `StopIteration` cannot be set on an asyncio Future: the future wrapping
+    # the executor's one would never be resolved and the request would hang.
+    # Report it like a coroutine does (PEP 479).
+    def _call() -> T:
+        try:
+            return call()
+        except StopIteration as err:
+            raise RuntimeError("resolver raised StopIteration") from err
+
+    return _call
 
 
 # This is helper class is necessary because we cannot use async generators in
